@@ -34,14 +34,18 @@
 //!   history independence: when one history reaches the same set of present files twice and the choice differs, that is
 //!     the OPEN known finding (re-submitting a.lua makes require "a" switch to a/init.lua): `KNOWN history-dependent
 //!     choice`, never a failure.
-//! BOUNDS  6 families (default patterns: file + directory of one name, one name below different directories, a deep
-//!   chain; module maps `^@(\w+)$ -> packages.$1.index`, `^foo$ -> bar.baz`, `^src\.(.*)$ -> $1`; custom patterns
-//!   `?.lua;?/init.lua;lib/?.lua`; a main root + a library root with the same module) x strict.requirePath
-//!   false / true.  Systematic histories per family: add all files (in the given and in the reverse order), then for
-//!   every file i: remove i, re-add i; for every ordered pair (i, j): remove i, remove j, re-add j, re-add i;
-//!   re-submission of every file.  Random histories: 3-6 files of the family's pool, 10 operations.  Observed after EVERY
-//!   operation: all queries (every M(F), every dotted suffix of it, the family's mapped / missing names).  Every
-//!   history is run 5 times in fresh analyses in this process and once in each of 2 child processes.
+//! BOUNDS  7 families (default patterns: file + directory of one name with a deep chain `a.lua` / `a/b/c/d.lua`; one
+//!   name below different directories; module maps `^@(\w+)$ -> packages.$1.index`, `^foo$ -> bar.baz`,
+//!   `^src\.(.*)$ -> $1`; custom patterns `?.lua;?/init.lua;lib/?.lua`; a main root + a library root with the same
+//!   module) x strict.requirePath false / true.  Systematic histories per family (3-6 files): add the files one by
+//!   one (in the given and in the reverse order), then: re-submit every file; for every file i: remove i, re-add i;
+//!   (given order only) for every ordered pair (i, j): remove i, remove j, re-add j, re-add i; all files in ONE
+//!   update_files_by_uri batch (both orders), then remove / re-add every file.  Random histories: 3-6
+//!   files of the family's pool (up to 9) in random order, then 10 random add / remove / re-submit operations.
+//!   Observed after every operation (the partial workspaces while adding: once per order, not again in every history):
+//!   all queries = every M(F), every dotted suffix of it, the family's mapped / missing names.  Every history is run
+//!   5 times in fresh analyses in this process and once in each of 2 child processes (running alongside).
+//!   Default run: 526 histories, about 50 s in a debug build.
 use emmylua_code_analysis::{EmmyLuaAnalysis, Emmyrc, FileId, RenderLevel, WorkspaceFolder, file_path_to_uri, humanize_type};
 use emmylua_parser::{LuaAstNode, LuaCallExpr, LuaExpr, LuaNameExpr};
 use regex::Regex;
@@ -90,7 +94,8 @@ const FAMILIES: &[Family] = &[
 ];
 
 #[derive(Clone, Copy, Debug, PartialEq)]
-enum Op { Add(usize), Remove(usize) } // Add of a present file = re-submission of the same text
+enum Op { Add(usize), Remove(usize), /// all files of the scenario in ONE update_files_by_uri call (in the given / the reverse order)
+          Batch(bool) } // Add of a present file = re-submission of the same text
 
 #[derive(Clone)]
 struct Scenario { fam: usize, strict: bool, files: Vec<(usize, &'static str)>, queries: Vec<String>, ops: Vec<Op>, what: String,
@@ -108,7 +113,10 @@ impl Scenario {
     }
     fn path(&self, i: usize) -> String { let (r, rel) = self.files[i]; format!("{BASE}/{}/{rel}", self.family().roots[r].0) }
     fn show_ops(&self, upto: usize) -> String {
-        self.ops[..upto].iter().map(|o| match o { Op::Add(i) => format!("+{}", self.short(*i)), Op::Remove(i) => format!("-{}", self.short(*i)) }).collect::<Vec<_>>().join(" ")
+        self.ops[..upto].iter().map(|o| match o {
+            Op::Add(i) => format!("+{}", self.short(*i)), Op::Remove(i) => format!("-{}", self.short(*i)),
+            Op::Batch(rev) => { let mut v: Vec<String> = (0..self.files.len()).map(|i| self.short(i)).collect(); if *rev { v.reverse(); } format!("batch[{}]", v.join(", ")) }
+        }).collect::<Vec<_>>().join(" ")
     }
     fn short(&self, i: usize) -> String { let (r, rel) = self.files[i]; if self.family().roots.len() > 1 { format!("{}/{rel}", self.family().roots[r].0) } else { rel.to_string() } }
 }
@@ -196,6 +204,12 @@ fn run_history(sc: &Scenario) -> Vec<Step> {
         match *op {
             Op::Add(i) => { ids[i] = Some(a.update_file_by_uri(&uris[i], Some(module_text(i))).unwrap_or_else(|| setup_fail("no file id"))); present[i] = true; }
             Op::Remove(i) => { if present[i] { a.remove_file_by_uri(&uris[i]); present[i] = false; ids[i] = None; } }
+            Op::Batch(rev) => {
+                let mut order: Vec<usize> = (0..sc.files.len()).collect();
+                if rev { order.reverse(); }
+                a.update_files_by_uri(order.iter().map(|i| (uris[*i].clone(), Some(module_text(*i)))).collect());
+                for i in 0..sc.files.len() { ids[i] = Some(a.get_file_id(&uris[i]).unwrap_or_else(|| setup_fail("no file id after the batch"))); present[i] = true; }
+            }
         }
         if op_index < sc.observe_from { steps.push(Step { present: present.clone(), obs: Vec::new(), node_ok: Vec::new() }); continue; }
         let user_id = a.update_file_by_uri(&user_uri, Some(user_text(&sc.queries))).unwrap_or_else(|| setup_fail("no file id"));
@@ -322,6 +336,9 @@ fn scenarios(seed: u64, random: usize) -> Vec<Scenario> {
                 mk((0..n).map(Op::Add).collect(), "re-submit every file".to_string());
                 for i in 0..n { mk(vec![Op::Remove(i), Op::Add(i)], format!("remove / re-add #{i}")); }
                 if !reverse { for i in 0..n { for j in 0..n { if i != j { mk(vec![Op::Remove(i), Op::Remove(j), Op::Add(j), Op::Add(i)], format!("remove #{i}, #{j}; re-add #{j}, #{i}")); } } } }
+                // the whole workspace in one batch (what a workspace load does)
+                out.push(Scenario { fam: fi, strict, files: files.clone(), queries: queries.clone(), ops: vec![Op::Batch(reverse)], what: "one batch".to_string(), observe_from: 0 });
+                if !reverse { for i in 0..n { out.push(Scenario { fam: fi, strict, files: files.clone(), queries: queries.clone(), ops: vec![Op::Batch(false), Op::Remove(i), Op::Add(i)], what: format!("one batch, remove / re-add #{i}"), observe_from: 1 }); } }
             }
         }
     }
